@@ -389,10 +389,12 @@ DOCUMENTED_EXCLUSIONS = (
     (('ABSORPTION', 'INST'), ('TRANSITS',)),
     (('LAGTIME', 'ON'), ('TRANSITS',)),
 )
-# exclusions present in the implementation with an explanatory comment but not in the docs;
-# tolerated (paths using them may or may not exist), never required
+# exclusion row present in the implementation without any explanation and not in the docs;
+# tolerated (paths using it may or may not exist), never required
 UNDOCUMENTED_EXCLUSIONS = ((('ABSORPTION', 'FO'), ('TRANSITS', 1, 'NODEPOT')),)
-UNDOCUMENTED_NEVER = (('TRANSITS', 0, 'NODEPOT'),)
+# stated by a comment in _is_allowed ("Equivalent to changing the absorption rate model to
+# instantaneous absorption"): TRANSITS(0,NODEPOT) is never a step, at any depth -- mandatory
+COMMENTED_NEVER = (('TRANSITS', 0, 'NODEPOT'),)
 
 
 def _pair_excluded(f, g, table):
@@ -402,12 +404,13 @@ def _pair_excluded(f, g, table):
     return False
 
 
-def step_allowed(f, prev, keys, strict):
+def step_allowed(f, prev, keys, strict, never=True):
     """May feature f be added to a model that already got the features `prev` (a set)?
 
     documented: one feature per category on a path; peripheral compartments one at a time in
     increasing order starting with the smallest count of the space; exclusion table.
-    strict=True additionally applies the undocumented exclusions."""
+    strict=True additionally applies the undocumented exclusion row; never=False switches the
+    commented TRANSITS(0,NODEPOT) rule off (used only for the position-independence clause)."""
     if f in prev:
         return False
     if f[0] == 'PERIPHERALS':
@@ -417,7 +420,7 @@ def step_allowed(f, prev, keys, strict):
             return f[1] == ns[0]
         i = ns.index(done[-1])
         return i + 1 < len(ns) and ns[i + 1] == f[1]
-    if strict and f in UNDOCUMENTED_NEVER:
+    if never and f in COMMENTED_NEVER:
         return False
     if any(p[0] == f[0] for p in prev):
         return False
